@@ -1,5 +1,5 @@
 """Anchors and shared checks for the threaded pipeline (Pipe::new worker protocol), used by C05, C08 and C09."""
-from analysis.engine import AnchorMissing
+from analysis.engine import AnchorMissing, Definite
 from analysis import cfg
 from analysis.sym import sym, show_in, nosite, peel, core, walk, ret_values, args_of, guards_at, atoms_at, \
     variant_facts_at, cmp_facts_at, variant_edges
@@ -22,6 +22,13 @@ def worker(ctx):
     sites = [(new, t) for t in new.calls(SPAWN)]
     for c in closures_in(ctx, new):
         sites += [(c, t) for t in c.calls(SPAWN)]
+    pool = [(new, t) for t in new.calls(r'rayon(_core)?::(spawn|spawn_fifo|scope)$|ThreadPool::(spawn|execute|install)$')]
+    for c in closures_in(ctx, new):
+        pool += [(c, t) for t in c.calls(r'rayon(_core)?::(spawn|spawn_fifo|scope)$|ThreadPool::(spawn|execute|install)$')]
+    if pool and not sites:
+        raise Definite('pool-worker', 'Pipe::new runs its workers on a shared thread pool (`%s`, line %d): a worker never returns while its input lasts and blocks '
+                       'while it waits for its turn, so the workers of one pipe can occupy every pool thread and starve the workers of another pipe (nothing is '
+                       'ever delivered); workers must be dedicated threads' % (pool[0][1].callee_res(), pool[0][1].span['line']), pool[0][0], pool[0][1].span)
     if len(sites) != 1:
         raise AnchorMissing('exactly one thread spawn in Pipe::new (found %d)' % len(sites))
     sbody, sterm = sites[0]
@@ -49,6 +56,10 @@ def worker(ctx):
     b = w.body
     # ticket: the next() on the shared enumerated iterator, reached through the mutex
     tick = [t for t in b.calls(r'::next$') if has(sym(b, t.args[0]), Call('Mutex::lock'))]
+    if len(tick) > 1:
+        raise Definite('second-pull', 'the worker pulls from the shared input at %d sites (lines %s): an item is requested while the result of the previous one is '
+                       'still held back, so delivering f(x_k) depends on the input answering a request for a later element (a request/response source deadlocks) and the '
+                       'look-ahead grows' % (len(tick), ', '.join(str(t.span['line']) for t in tick)), b, tick[1].span)
     if len(tick) != 1:
         raise AnchorMissing('worker: exactly one `.lock()..next()` ticket pull (found %d)' % len(tick))
     w.ticket = tick[0]
